@@ -32,7 +32,7 @@ end TV.Viterbi
 
 Mirrors `HMM.estimate` of `tracklib/algo/dynamics.py` as it is written: the columns `TAB_VAL[k]` /
 `TAB_MRK[k]` are built one epoch after the other from the previous column (no recomputation), the
-last column is searched with `numpy.argmin` (first minimum) and the back-pointers are walked from the
+last column is searched with `numpy.argmin` (first NaN, else first minimum) and the back-pointers are walked from the
 last epoch down to epoch 0, recording `(idk, TAB_VAL[k][idk])` (`hmm_inference`, `hmm_cost`).
 `Lemmas/Viterbi.lean` proves that this form equals the function-style `val`/`mrk`/`back` above. -/
 namespace TV.Viterbi
@@ -43,15 +43,23 @@ variable {α : Type} [LT α] [DecidableLT α]
 def costOf [Add α] [Neg α] (logf : α → α) (eps : α) (isLog : Bool) (v : α) : α :=
   if isLog then -v else -(logf (v + eps))
 
-/-- the scan of `numpy.argmin` after its first element: strict `<`, so the first minimum is kept -/
-def argminFrom (best : α) (bi : Nat) : Nat → List α → Nat
-  | _, [] => bi
-  | i, x :: xs => if x < best then argminFrom x i (i+1) xs else argminFrom best bi (i+1) xs
+/-- `npy_isnan`: the only values that differ from themselves are the NaNs of IEEE-754 (in a type with a lawful `==` —
+ℕ, ℤ, ℚ, any linear order — there is none) -/
+def isNaN [BEq α] (x : α) : Bool := !(x == x)
 
-/-- `numpy.argmin` of a list; `none` = `ValueError` on an empty sequence -/
-def argmin? : List α → Option Nat
+/-- the scan of `numpy.argmin` after its first element (`best` is not a NaN): `if (!(*ip >= mp)) { mp = *ip; *min_ind = i;
+if (npy_isnan(mp)) break; }` — a NaN is taken at once and ends the scan, otherwise strict `<`, so the first minimum
+is kept -/
+def argminFrom [BEq α] (best : α) (bi : Nat) : Nat → List α → Nat
+  | _, [] => bi
+  | i, x :: xs => if isNaN x then i
+                  else if x < best then argminFrom x i (i+1) xs else argminFrom best bi (i+1) xs
+
+/-- `numpy.argmin` of a list: the index of the FIRST NaN if there is one, else of the first minimum;
+`none` = `ValueError` on an empty sequence -/
+def argmin? [BEq α] : List α → Option Nat
   | [] => none
-  | x :: xs => some (argminFrom x 0 1 xs)
+  | x :: xs => if isNaN x then some 0 else some (argminFrom x 0 1 xs)
 
 /-- `(TAB_VAL[0], TAB_MRK[0])`; Python stores `-1` as marker, which is never read: `0` here -/
 def firstCol (t : Tables α) : List α × List Nat :=
@@ -89,7 +97,7 @@ inductive Res (α : Type) where
   deriving DecidableEq
 
 /-- `HMM.estimate` on a track of `N` epochs -/
-def decode (t : Tables α) : Nat → Res α
+def decode [BEq α] (t : Tables α) : Nat → Res α
   | 0 => .errIndex
   | N+1 =>
     match forward t N with
